@@ -63,7 +63,16 @@ impl MqttSink {
         } else {
             self.0.wait_readiness().map_or_else(
                 || Either::Left(ready(true)),
-                |rx| Either::Right(async move { rx.await.is_ok() }),
+                |rx| {
+                    let shared = self.0.clone();
+                    let rx = shared.wait(rx);
+                    Either::Right(async move {
+                        let alive = rx.await.is_ok();
+                        // ready() does not take a slot, hand the wake-up over
+                        shared.wake_waiter();
+                        alive
+                    })
+                },
             )
         }
     }
@@ -302,6 +311,7 @@ impl PublishBuilder {
 
             // handle client receive maximum
             if let Some(rx) = self.shared.wait_readiness() {
+                let rx = self.shared.wait(rx);
                 Either::Left(Either::Left(async move {
                     if rx.await.is_err() {
                         return Err(SendPacketError::Disconnected);
@@ -365,6 +375,7 @@ impl PublishBuilder {
 
             // handle client receive maximum
             let fut = if let Some(rx) = self.shared.wait_readiness() {
+                let rx = self.shared.wait(rx);
                 Either::Left(Either::Left(async move {
                     if rx.await.is_err() {
                         return Err(SendPacketError::Disconnected);
@@ -439,6 +450,7 @@ impl PublishBuilder {
 
             // handle client receive maximum
             if let Some(rx) = self.shared.wait_readiness() {
+                let rx = self.shared.wait(rx);
                 Either::Left(Either::Left(async move {
                     if rx.await.is_err() || !self.shared.wait_ready().await {
                         return Err(SendPacketError::Disconnected);
